@@ -220,3 +220,101 @@ func HarnessC12_Lookback() {
 	}
 	vfCover("c12-lookback-done")
 }
+
+func init() { vfRegister("HarnessC12_Partitions", HarnessC12_Partitions) }
+
+func vfPartMembers(pr *PartitionRing) map[int32]PartitionDesc { return pr.desc.Partitions }
+
+// HarnessC12_Partitions: the partition ring gives the same guarantees over
+// active partitions.
+func HarnessC12_Partitions() {
+	np := 1 + vfChoice("nparts", vfParam("parts", 3))
+	now := vfI64("now")
+	vfAssume(vfAnd(now >= vfEpoch, now <= vfEpoch+(1<<30)))
+	desc := NewPartitionRingDesc()
+	var all []uint32
+	active := 0
+	states := make([]PartitionState, np)
+	for p := 0; p < np; p++ {
+		tok := vfU32("ptok")
+		for _, t := range all {
+			vfAssume(t != tok)
+		}
+		all = append(all, tok)
+		// state by choice (the shard size depends on the number of active partitions)
+		st := []PartitionState{PartitionPending, PartitionActive, PartitionInactive}[vfChoice("pstate", 3)]
+		states[p] = st
+		if st == PartitionActive {
+			active++
+		}
+		ts := vfI64("pts")
+		vfAssume(vfAnd(ts >= 1, ts <= now))
+		desc.Partitions[int32(p)] = PartitionDesc{Id: int32(p), Tokens: []uint32{tok}, State: st, StateTimestamp: ts}
+	}
+	pr, err := NewPartitionRing(*desc)
+	vfAssert(err == nil, "C12 partition ring builds")
+	tenant := vfTenants[vfChoice("tenant", vfParam("tenants", 1))]
+	size := vfChoice("size", np+2)
+	s1, err1 := pr.ShuffleShard(tenant, size)
+	s2, err2 := pr.ShuffleShard(tenant, size)
+	vfAssert(err1 == nil && err2 == nil, "C12 partition shard is computed")
+	m1, m2 := vfPartMembers(s1), vfPartMembers(s2)
+	vfAssert(len(m1) == len(m2), "C12 partition shard depends only on ring content, identifier and size")
+	for id := range m1 {
+		_, ok := m2[id]
+		vfAssert(ok, "C12 partition shard depends only on ring content, identifier and size")
+		vfAssert(states[id] == PartitionActive, "C12 a partition shard holds only active partitions")
+	}
+	want := active
+	if size > 0 && size < active {
+		want = size
+	}
+	vfObserve("members", len(m1))
+	vfAssert(len(m1) == want, "C12 a partition shard holds the requested number of active partitions (all of them when fewer exist)")
+	if size >= 2 {
+		small, err := pr.ShuffleShard(tenant, size-1)
+		vfAssert(err == nil, "C12 partition shard is computed")
+		for id := range vfPartMembers(small) {
+			_, ok := m1[id]
+			vfAssert(ok, "C12 a partition shard contains the shard of every smaller size")
+		}
+	}
+	// look-back is a superset of the plain shard
+	lookS := vfI64("lookback_s")
+	vfAssume(vfAnd(lookS >= 1, lookS <= 1<<24))
+	lb, err := pr.ShuffleShardWithLookback(tenant, size, time.Duration(lookS)*time.Second, time.Unix(now, 0))
+	vfAssert(err == nil, "C12 partition look-back shard is computed")
+	for id := range m1 {
+		_, ok := vfPartMembers(lb)[id]
+		vfAssert(ok, "C12 the partition look-back shard is a superset of the plain shard")
+	}
+	// the shard as it was at an instant tau of the window: a partition that
+	// became inactive after tau was active then; one that became active after
+	// tau was not active yet (second granularity as in the instance ring)
+	tau := vfI64("tau")
+	vfAssume(vfAnd(tau >= now-lookS, tau <= now))
+	edge := vfChoice("edge", 2) == 1
+	past := NewPartitionRingDesc()
+	for id, p := range desc.Partitions {
+		changedAfter := p.StateTimestamp > tau || (edge && p.StateTimestamp == tau)
+		if changedAfter {
+			switch p.State {
+			case PartitionInactive:
+				p.State = PartitionActive
+			case PartitionActive:
+				p.State = PartitionInactive
+			}
+			p.StateTimestamp = 1
+		}
+		past.Partitions[id] = p
+	}
+	ppr, err := NewPartitionRing(*past)
+	vfAssert(err == nil, "C12 past partition ring builds")
+	old, err := ppr.ShuffleShard(tenant, size)
+	vfAssert(err == nil, "C12 past partition shard is computed")
+	for id := range vfPartMembers(old) {
+		_, ok := vfPartMembers(lb)[id]
+		vfAssert(ok, "C12 the partition look-back shard contains every partition that belonged to the shard at any moment of the window")
+	}
+	vfCover("c12-partitions-done")
+}
